@@ -9,6 +9,8 @@ PROP = dict(
     assumptions=["stable membership, no stress toggling while buffered (as the property states)", "decision memory large enough that nothing is evicted", "bounded model: see level_note"],
     stages=[dict(kind="walk", name="backlog", module="MCCollectorBacklog", pkg="collect", test="TestVerifCollector", harness=["collect/collector_test.go"], cfg={"quick": "MC_Collector_backlog_q.cfg", "thorough": "MC_Collector_backlog.cfg"}, budget={"quick": 30, "thorough": 600}, maxwalk=40),
             dict(kind="walk", name="core", tiers=("thorough",), module="MCCollectorCore", pkg="collect", test="TestVerifCollector", harness=["collect/collector_test.go"], cfg={"quick": "MC_Collector_core_q.cfg", "thorough": "MC_Collector_core.cfg"}, budget={"quick": 30, "thorough": 600}, maxwalk=40),
+            dict(kind="walk", name="admission", module="Admission", pkg="collect", test="TestVerifAdmission", harness=["collect/collector_test.go", "collect/admission_test.go"],
+                 cfg={"quick": "MC_Admission_q.cfg", "thorough": "MC_Admission_big.cfg"}, budget={"quick": 20, "thorough": 120}, maxwalk=20),
             dict(kind="tlc", name="liveness", module="MCCollectorBacklog", cfg={"quick": None, "thorough": "MC_Collector_live.cfg"}, workers=8),
             dict(kind="trace", name="concurrent", module="TraceCollector", cfg="TraceCollector.cfg", pkg="collect", test="TestVerifCollectorTrace",
                  harness=["collect/collector_test.go", "collect/collector_trace_test.go"], race=True, budget={"quick": 15, "thorough": 120})],
